@@ -190,6 +190,28 @@ fn vocab_mode() {
         if lang::magic_methods::from_str(name).is_some() {
             v.push("magic_methods");
         }
+        {
+            use lang::surface::methods as m;
+            if m::string_methods::from_str(name).is_some()
+                || m::set_methods::from_str(name).is_some()
+                || m::list_methods::from_str(name).is_some()
+                || m::dict_methods::from_str(name).is_some()
+                || m::frozen_set_methods::from_str(name).is_some()
+                || m::frozen_list_methods::from_str(name).is_some()
+                || m::frozen_dict_methods::from_str(name).is_some()
+                || m::frozen_bytes_methods::from_str(name).is_some()
+                || m::float_methods::from_str(name).is_some()
+                || m::option_methods::from_str(name).is_some()
+            {
+                v.push("surface_methods");
+            }
+        }
+        if lang::surface::math::fn_from_str(name).is_some() || lang::surface::math::const_from_str(name).is_some() {
+            v.push("math");
+        }
+        if lang::decorators::from_str(name).is_some() {
+            v.push("decorators");
+        }
         json!({"name": name,
                "incan_keyword": lang::keywords::from_str(name).is_some(),
                "rust_keyword": lang::rust_keywords::is_keyword(name),
@@ -827,6 +849,96 @@ fn scan_lookups(ts: &TokenStream, out: &mut Vec<RawLookup>) {
     }
 }
 
+
+// ------------------------------------------------------------------------------------------------
+// SPELLING-dependent decisions: places outside `quote!` bodies where the text of a name is sorted, compared,
+// prefix/suffix/case/character-tested or split -- i.e. where the SPELLING of a user identifier can influence the
+// STRUCTURE of the emitted program (not just the spelling of one token).
+// ------------------------------------------------------------------------------------------------
+
+const SPELLING_METHODS: &[&str] = &[
+    "sort", "sort_by", "sort_by_key", "sort_unstable", "sort_unstable_by", "sort_unstable_by_key", "sorted", "cmp", "partial_cmp",
+    "starts_with", "ends_with", "is_uppercase", "is_lowercase", "is_ascii_uppercase", "is_ascii_lowercase", "to_uppercase",
+    "to_lowercase", "to_ascii_uppercase", "to_ascii_lowercase", "chars", "bytes", "char_indices", "strip_prefix", "strip_suffix",
+    "trim_start_matches", "trim_end_matches", "split", "rsplit", "split_once", "rsplit_once", "find", "rfind", "dedup", "reverse",
+    "max_by", "min_by", "max_by_key", "min_by_key", "binary_search",
+];
+const SPELLING_TYPES: &[&str] = &["BTreeMap", "BTreeSet", "BinaryHeap"];
+
+struct RawSpell {
+    what: String,
+}
+
+fn scan_spelling(ts: &TokenStream, out: &mut Vec<RawSpell>) {
+    let v = toks(ts);
+    let mut i = 0;
+    while i < v.len() {
+        // skip the body of quote!/quote_spanned!/parse_quote!/format!-like token templates that are EMITTED code
+        if (v[i] == "quote" || v[i] == "quote_spanned" || v[i] == "parse_quote") && v.get(i + 1).map(|t| t == "!").unwrap_or(false) {
+            if let Some(open) = v.get(i + 2) {
+                if is_open(open) {
+                    let mut d = 0i32;
+                    let mut k = i + 2;
+                    while k < v.len() {
+                        if is_open(&v[k]) {
+                            d += 1;
+                        } else if is_close(&v[k]) {
+                            d -= 1;
+                            if d == 0 {
+                                break;
+                            }
+                        }
+                        k += 1;
+                    }
+                    i = k + 1;
+                    continue;
+                }
+            }
+        }
+        if SPELLING_TYPES.contains(&v[i].as_str()) {
+            out.push(RawSpell { what: v[i].clone() });
+        }
+        if v[i] == "." && i + 2 < v.len() && v[i + 2] == "(" {
+            let m = v[i + 1].as_str();
+            let lit_arg = v.get(i + 3).map(|t| t.starts_with('"') || t.starts_with('\'')).unwrap_or(false);
+            let needs_lit = matches!(m, "contains" | "find" | "rfind" | "split" | "rsplit" | "split_once" | "rsplit_once");
+            if (SPELLING_METHODS.contains(&m) && !needs_lit) || (needs_lit && lit_arg) {
+                // receiver: the identifier chain before the dot (up to 3 segments)
+                let mut b = i;
+                let mut recv: Vec<String> = Vec::new();
+                while b > 0 && recv.len() < 5 {
+                    let t = &v[b - 1];
+                    let c = t.chars().next().unwrap_or(' ');
+                    let kw = matches!(t.as_str(), "if" | "else" | "return" | "let" | "match" | "in" | "while" | "for" | "mut");
+                    if !kw && (c.is_ascii_alphanumeric() || c == '_' || t == ".") {
+                        recv.insert(0, t.clone());
+                        b -= 1;
+                    } else {
+                        break;
+                    }
+                }
+                let mut k = i + 3;
+                let mut d = 0i32;
+                let mut arg: Vec<String> = Vec::new();
+                while k < v.len() && arg.len() < 8 {
+                    if is_open(&v[k]) {
+                        d += 1;
+                    } else if is_close(&v[k]) {
+                        if d == 0 {
+                            break;
+                        }
+                        d -= 1;
+                    }
+                    arg.push(v[k].clone());
+                    k += 1;
+                }
+                out.push(RawSpell { what: format!("{}.{}({})", recv.join(""), m, arg.join(" ")) });
+            }
+        }
+        i += 1;
+    }
+}
+
 fn extract(repo: &Path) -> String {
     let mut errors: Vec<String> = Vec::new();
 
@@ -957,6 +1069,7 @@ fn extract(repo: &Path) -> String {
     let mut sites: Vec<Value> = Vec::new();
     let mut fixed_all: Vec<String> = Vec::new();
     let mut lookups: Vec<Value> = Vec::new();
+    let mut spelling: Vec<String> = Vec::new();
     let mut seen_lookup: std::collections::HashMap<String, usize> = std::collections::HashMap::new();
     for p in &files {
         let rel = p.strip_prefix(&emit_dir).unwrap_or(p).to_string_lossy().to_string();
@@ -982,6 +1095,14 @@ fn extract(repo: &Path) -> String {
             let mut fixed = Vec::new();
             scan_sites(&func.tokens, &lets, &mut raw, &mut fixed, false);
             fixed_all.extend(fixed);
+            let mut sp = Vec::new();
+            scan_spelling(&func.tokens, &mut sp);
+            for x in sp {
+                let base = format!("emit/{}:{}:{}", rel, func.name, x.what);
+                let n = seen_lookup.entry(base.clone()).or_insert(0);
+                *n += 1;
+                spelling.push(if *n == 1 { base.clone() } else { format!("{}#{}", base, n) });
+            }
             let mut lk = Vec::new();
             scan_lookups(&func.tokens, &mut lk);
             for l in lk {
@@ -1031,6 +1152,14 @@ fn extract(repo: &Path) -> String {
             if func.is_test {
                 continue;
             }
+            let mut sp = Vec::new();
+            scan_spelling(&func.tokens, &mut sp);
+            for x in sp {
+                let base = format!("lower/{}:{}:{}", rel, func.name, x.what);
+                let n = seen_lookup.entry(base.clone()).or_insert(0);
+                *n += 1;
+                spelling.push(if *n == 1 { base.clone() } else { format!("{}#{}", base, n) });
+            }
             let mut lk = Vec::new();
             scan_lookups(&func.tokens, &mut lk);
             for l in lk {
@@ -1056,6 +1185,7 @@ fn extract(repo: &Path) -> String {
         "sites": sites,
         "fixed_temporaries": fixed_all,
         "lookups": lookups,
+        "spelling_sites": spelling,
         "errors": errors,
     })
     .to_string()
